@@ -1,5 +1,6 @@
 import A2Verif.Model.Mkdsk
 import A2Verif.Lemmas.MkdskDomain
+import A2Verif.Lemmas.MkdskAny
 /-!
 # Property C10 — every accepted mkdsk configuration yields a valid empty volume
 
@@ -16,7 +17,7 @@ that file system, and the block / free-block figures the formatter produces are 
 and leave room for a first file.
 -/
 namespace A2Verif.C10
-open A2Verif.Gen.Mkdsk A2Verif.Model.Mkdsk A2Verif.Lemmas.MkdskDomain
+open A2Verif.Gen.Mkdsk A2Verif.Model.Mkdsk A2Verif.Lemmas.MkdskDomain A2Verif.Lemmas.MkdskAny
 
 /-! ## the specification of an accepted plan (written independently of the guards of mkdsk.rs) -/
 
@@ -54,9 +55,9 @@ def volLegal (c : Config) (p : Plan) : Bool :=
     | none => false
   | .prodos => !c.boot && (match c.vol with | some s => prodosNameValid s | none => false)
   | .pascal => !c.boot && (match c.vol with | some s => pascalVolValid s | none => false)
-  | .cpm => !c.boot && (match osHandler c.os, c.vol with
-    | .cpm 3, some s => s.isEmpty || cpmNameValid s
-    | _, _ => true)
+  | .cpm => !c.boot && (match osHandler c.os with
+    | .cpm v => decide (v < 3) || (cpmLabel v c.vol).isEmpty || cpmNameValid (cpmLabel v c.vol)
+    | _ => true)
   | .fat => !c.boot && (match c.vol with | some s => s.isEmpty || fatLabelValid s | none => true)
 
 /-- the capacity of the image is one the formatter of the file system supports -/
@@ -73,6 +74,41 @@ def capacityOk (p : Plan) : Bool :=
     | some (_, b) => b.get 5 * b.get 0 == p.cap && p.total == b.clusters && p.blockSize == b.get 0 * b.get 1
     | none => false
 
+/-- What each `--kind` value means, in data bytes: written down from the documentation of the media (tracks x sides x
+sectors x sector size; Apple 3.5 inch in 512 byte blocks), deliberately *not* taken from `img/names.rs`, so that a
+changed layout constant or a changed `DiskKind::from_str` arm shows up here. -/
+def specCapacity : KindArg → Nat
+  | .k_8in => 256256
+  | .k_8in_trs80 => 625920
+  | .k_8in_nabu => 1018368
+  | .k_5_25in => 143360
+  | .k_5_25in_ibm_ssdd8 => 163840
+  | .k_5_25in_ibm_ssdd9 => 184320
+  | .k_5_25in_ibm_dsdd8 => 327680
+  | .k_5_25in_ibm_dsdd9 => 368640
+  | .k_5_25in_ibm_ssqd => 327680
+  | .k_5_25in_ibm_dsqd => 655360
+  | .k_5_25in_ibm_dshd => 1228800
+  | .k_5_25in_kayii => 204800
+  | .k_5_25in_kay4 => 409600
+  | .k_5_25in_osb_sd => 102400
+  | .k_5_25in_osb_dd => 204800
+  | .k_3_5in => 819200
+  | .k_3_5in_ss => 409600
+  | .k_3_5in_ds => 819200
+  | .k_3_5in_ibm_720 => 737280
+  | .k_3_5in_ibm_1440 => 1474560
+  | .k_3_5in_ibm_2880 => 2949120
+  | .k_3in_amstrad => 184320
+  | .k_hdmax => 33553920
+
+/-- the image has the capacity the `--kind` value stands for (DOS 3.2 turns the 5.25 inch kind into its 13 sector
+form; a WOZ reports the 16 sector figure for it, woz1.rs:359 / woz2.rs:671) -/
+def specOk (c : Config) (p : Plan) : Bool :=
+  if c.os.same .o_dos32 && p.kind.same .A2_DOS32_KIND then
+    p.cap == 35 * 13 * 256 || ((p.typ.same .WOZ1 || p.typ.same .WOZ2) && p.cap == 35 * 16 * 256)
+  else p.cap == specCapacity c.kind
+
 /-- the byte capacity of the image is the data capacity of the requested kind (Apple 3.5 inch sectors carry 512 data
 bytes of their 524; a WOZ of a 13 sector disk reports the 16 sector figure, woz1.rs:359 / woz2.rs:671) -/
 def kindCapacityOk (p : Plan) : Bool :=
@@ -87,7 +123,7 @@ def freeOk (p : Plan) : Bool :=
   decide (p.cap * 70 ≤ p.free * p.blockSize * 100)
 
 def acceptedOk (c : Config) (p : Plan) : Bool :=
-  asRequested c p && pairInTable p && extOk c p && kindCapacityOk p && capacityOk p && volLegal c p && freeOk p
+  asRequested c p && pairInTable p && extOk c p && specOk c p && kindCapacityOk p && capacityOk p && volLegal c p && freeOk p
 
 /-! ## the exhaustive runs, one per OS -/
 
@@ -132,7 +168,8 @@ theorem no_panic (os : Os) (kind : KindArg) (typ : TypeArg) (wrap : Option WrapA
 
 /-- C10, clause "for every accepted combination …" as far as it is a fact about the decision: an accepted
 configuration is one whose (image type, kind) pair is in `mkimage`'s table, whose extension belongs to the image type,
-whose image has the data capacity of the requested kind, whose file system is the requested one on a capacity
+whose image has the capacity the `--kind` value stands for (`specCapacity`, independent of names.rs) and the data
+capacity of the kind value, whose file system is the requested one on a capacity
 its formatter supports, whose volume argument is legal, and whose
 block and free-block figures are consistent with the capacity and leave room for a first file. -/
 theorem accepted_sound (os : Os) (kind : KindArg) (typ : TypeArg) (wrap : Option WrapArg) (boot : Bool)
@@ -166,6 +203,79 @@ theorem refused_writes_nothing (c : Config) : (run c).wrote = (run c).outcome.is
 theorem existing_destination_refused (c : Config) (h : c.destExists = true) : (run c).outcome.isOk = false := by
   unfold run plan
   cases hk : osKnown c.os <;> simp [h, Outcome.isOk]
+
+/-! ## … and for arbitrary strings
+
+The three statements below quantify over *every* `Config`: any volume string, any extension, any destination state
+(the enumerated classes above are special cases).  They rest on the finite facts `tablesOk_holds` and
+`preImg_no_panic` (kernel evaluation over the generated tables) and on case analysis of the model. -/
+
+/-- no volume string, extension or destination state can make `mkdsk` panic -/
+theorem no_panic_any (c : Config) : (run c).outcome.isPanic = false := by
+  have h := plan_no_panic c
+  unfold run
+  cases hp : plan c with
+  | ok p => rfl
+  | err s => rfl
+  | panic s => rw [hp] at h; cases h
+
+theorem run_ok_iff (c : Config) (p : Plan) : (run c).outcome = .ok p ↔ plan c = .ok p := by
+  unfold run
+  cases plan c <;> simp
+
+/-- whatever the destination is called: an accepted configuration's extension, lower-cased, is one of the extensions
+of the image type that was written -/
+theorem accepted_extension_any (c : Config) (p : Plan) (h : (run c).outcome = .ok p) : extOk c p = true :=
+  accepted_extension c p ((run_ok_iff c p).mp h)
+
+/-- whatever the volume string is: if the configuration is accepted, the string is legal for the file system that
+was written (DOS 3.x: it parses as a number in 1..254, and 254 with boot tracks; ProDOS, Pascal: a legal name;
+CP/M 3, FAT: empty or a legal label), and only DOS 3.x is made bootable -/
+theorem accepted_volume_any (c : Config) (p : Plan) (h : (run c).outcome = .ok p) : volLegal c p = true := by
+  obtain ⟨x, _, hper⟩ := plan_ok_perOs ((run_ok_iff c p).mp h)
+  unfold perOs at hper
+  unfold volLegal
+  split at hper
+  · rename_i v hh
+    obtain ⟨hb, hv⟩ := mkcpm_volume hper
+    rw [mkcpm_fs hper, hh]
+    simp only [hb, Bool.not_false, Bool.true_and]
+    by_cases h3 : v < 3
+    · simp [h3]
+    · by_cases he : (cpmLabel v c.vol).length = 0
+      · have : (cpmLabel v c.vol).isEmpty = true := by simpa [List.isEmpty_iff_length_eq_zero] using he
+        simp [this]
+      · have := hv (by omega) (by omega)
+        simp [this]
+  · obtain ⟨s, v, hs, hp, hg, _, hb⟩ := mkdos3x_volume hper
+    rw [mkdos3x_fs hper, hs]
+    have hr := (dos3xVolGuard_range v).mp hg
+    simp only [Option.bind, hp]
+    have hbv : dos3xBootVol = 254 := rfl
+    cases hbo : c.boot
+    · simp [hr.1, hr.2]
+    · have := hb hbo
+      simp [this, hbv]
+  · obtain ⟨hb, s, hs, hv⟩ := mkprodos_volume hper
+    rw [mkprodos_fs hper, hs]
+    simp [hb, hv]
+  · obtain ⟨hb, s, hs, hv⟩ := mkpascal_volume hper
+    rw [mkpascal_fs hper, hs]
+    simp [hb, hv]
+  · obtain ⟨hb, hv⟩ := mkfat_volume hper
+    rw [mkfat_fs hper]
+    simp only [hb, Bool.not_false, Bool.true_and]
+    cases hvol : c.vol with
+    | none => rfl
+    | some s =>
+      rw [hvol] at hv
+      simp only [Option.getD] at hv
+      by_cases he : s.length = 0
+      · have : s.isEmpty = true := by simpa [List.isEmpty_iff_length_eq_zero] using he
+        simp [this]
+      · have := hv (by omega)
+        simp [this]
+  · cases hper
 
 /-- the interning of `DiskKind` values by the translator is sound: different constructors of `Kind` carry different
 data, so comparing constructors is comparing `DiskKind` values with the derived `PartialEq` -/
